@@ -9,12 +9,20 @@
          (b) `inv_mod2_62` — full; (c) `jump`: matrix identity, det, no wrap, termination in
          fuel, gcd preservation for the full-width operands — full
          (d) `fg` / `de` exact on unsaturated limbs (incl. the `(-2M, M)` range of `d`, `e`) — full
-  (further sections are appended below as they are proved)
+         (e) loop invariant through ANY number of trips (oddness, gcd, size of `f, g`; range and Bézout
+             congruences of `d, e`), and from `g = 0`: `|f| = gcd`, `norm(d)` is the inverse in `[0, M)`,
+             `is_some ↔ f = ±1 ↔ gcd = 1`, read back through `to_uint` — full, GIVEN `g = 0`:
+             `safegcd_inv_partial`, `safegcd_inv_vartime_partial`, `safegcd_gcd_partial`
+         (f) `H_divsteps_done` (the fixed trip count `iterations(..)` reaches `g = 0`; for the vartime
+             loop: it ends within the model's fuel) — NOT proved; carried as the named hypothesis
+  T10.5  Montgomery-form inversion (adjuster `R²`): the retrieved inverse times the retrieved value is 1 — `_partial` (same H)
+  T10.6  constant-time and vartime inverters / gcd agree — `_partial` (same H for both)
 -/
 import CB.Lemmas.C10Gcd
 import CB.Lemmas.C10Jump
 import CB.Lemmas.C10De
 import CB.Lemmas.C10Conv
+import CB.Lemmas.C10Final
 namespace CB.P10
 open CB.InvMod2k CB.Gcd CB.SafeGcd
 
@@ -263,5 +271,147 @@ theorem unsat_conversions_inverse (x u : List Nat) (n sat : Nat) (hx : CB.WF x) 
 example : uvalN (fromUint [0xfedcba9876543210, 0x0123456789abcdef] 4) = 0x0123456789abcdeffedcba9876543210 ∧
     toUint (fromUint [0xfedcba9876543210, 0x0123456789abcdef] 4) 2 =
       [0xfedcba9876543210, 0x0123456789abcdef] := by decide +kernel
+
+
+/-! ## T10.4 (e), (f) — the whole inverter / gcd, given that the loop reached `g = 0`
+
+`H_divsteps_done` is exactly the crate's `debug_assert!(g.eq(&UnsatInt::ZERO))` after the fixed-count loop
+(`safegcd.rs:234`; it runs on every executed line in the `dbgchk` profile), as reported by the model's `.gZero`.
+Operands: `sat ≥ 1` 64-bit words each; modulus odd; adjuster `< modulus` (`ONE` for `inv_odd_mod` with
+`M ≥ 3`, `R² mod M` for the Montgomery forms with any odd `M ≥ 1`). -/
+
+/- FULL STATEMENT (unproved): `safegcd_inv_full`, `safegcd_gcd_full` — the three theorems below WITHOUT the
+   hypothesis `H_divsteps_done`, i.e. additionally
+     ∀ sat mw aw vw, … → ((Inverter.new sat mw aw).inv sat vw).gZero = true
+     ∀ sat fw gw, …    → (gcdFixed false sat fw gw).gZero = true
+   (the Bernstein–Yang iteration bound `iterations(bits) = (49·d + 80 or 57)/17` batches of 62 divsteps;
+   the published proof of the bound is computer-assisted). -/
+
+/-- `SafeGcdInverter::new(M, adj).inv(v)` (constant-time form): reports `is_some` exactly when `gcd(v, M) = 1`;
+    the `to_uint` non-negativity assertion does not fire; the value is `< M` and `value·v ≡ adj (mod M)`. -/
+theorem safegcd_inv_partial (sat : Nat) (hsat : 1 ≤ sat)
+    (mw aw vw : List Nat) (hmw : CB.WF mw) (haw : CB.WF aw) (hvw : CB.WF vw)
+    (lm : mw.length = sat) (la : aw.length = sat) (lv : vw.length = sat)
+    (hodd : CB.val mw % 2 = 1) (hadj : CB.val aw < CB.val mw)
+    (H_divsteps_done : ((Inverter.new sat mw aw).inv sat vw).gZero = true) :
+    (((Inverter.new sat mw aw).inv sat vw).isSome = true ↔ Nat.gcd (CB.val vw) (CB.val mw) = 1) ∧
+    ((Inverter.new sat mw aw).inv sat vw).negative = false ∧
+    (((Inverter.new sat mw aw).inv sat vw).isSome = true →
+      CB.val ((Inverter.new sat mw aw).inv sat vw).value < CB.val mw ∧
+      CB.val ((Inverter.new sat mw aw).inv sat vw).value * CB.val vw ≡ CB.val aw [MOD CB.val mw]) :=
+  inv_fixed_spec sat hsat mw aw vw hmw haw hvw lm la lv hodd hadj H_divsteps_done
+
+/-- `inv_vartime`: the same, given that the `while g != 0` loop ends within the model's fuel
+    (`iterations(62n, 62n) + 1` trips — implied by the bound behind `H_divsteps_done`). -/
+theorem safegcd_inv_vartime_partial (sat : Nat) (hsat : 1 ≤ sat)
+    (mw aw vw : List Nat) (hmw : CB.WF mw) (haw : CB.WF aw) (hvw : CB.WF vw)
+    (lm : mw.length = sat) (la : aw.length = sat) (lv : vw.length = sat)
+    (hodd : CB.val mw % 2 = 1) (hadj : CB.val aw < CB.val mw)
+    (H_divsteps_done : ((Inverter.new sat mw aw).invVartime sat vw).gZero = true) :
+    (((Inverter.new sat mw aw).invVartime sat vw).isSome = true ↔ Nat.gcd (CB.val vw) (CB.val mw) = 1) ∧
+    ((Inverter.new sat mw aw).invVartime sat vw).negative = false ∧
+    (((Inverter.new sat mw aw).invVartime sat vw).isSome = true →
+      CB.val ((Inverter.new sat mw aw).invVartime sat vw).value < CB.val mw ∧
+      CB.val ((Inverter.new sat mw aw).invVartime sat vw).value * CB.val vw ≡ CB.val aw [MOD CB.val mw]) :=
+  inv_vartime_spec sat hsat mw aw vw hmw haw hvw lm la lv hodd hadj H_divsteps_done
+
+/-- `SafeGcdInverter::gcd(f, g)` / `gcd_vartime` with an ODD `f` (`Odd<Uint>::gcd_vartime`, `Uint::gcd` when
+    it hands over an odd `f`): the mathematical gcd, for every `g` including 0.
+    (Not covered: `Uint::gcd` handing over an EVEN `f` with an odd `g` — the first divstep swaps; see notes.) -/
+theorem safegcd_gcd_partial (vartime : Bool) (sat : Nat) (hsat : 1 ≤ sat)
+    (fw gw : List Nat) (hfw : CB.WF fw) (hgw : CB.WF gw) (lf : fw.length = sat) (lg : gw.length = sat)
+    (hodd : CB.val fw % 2 = 1)
+    (H_divsteps_done : (gcdFixed vartime sat fw gw).gZero = true) :
+    (gcdFixed vartime sat fw gw).negative = false ∧
+    CB.val (gcdFixed vartime sat fw gw).value = Nat.gcd (CB.val fw) (CB.val gw) :=
+  gcd_fixed_spec vartime sat hsat fw gw hfw hgw lf lg hodd H_divsteps_done
+
+/-! ## T10.6 — constant-time and vartime forms agree (given `H_divsteps_done` for both) -/
+
+theorem safegcd_ct_vartime_agree_partial (sat : Nat) (hsat : 1 ≤ sat)
+    (mw aw vw : List Nat) (hmw : CB.WF mw) (haw : CB.WF aw) (hvw : CB.WF vw)
+    (lm : mw.length = sat) (la : aw.length = sat) (lv : vw.length = sat)
+    (hodd : CB.val mw % 2 = 1) (hadj : CB.val aw < CB.val mw)
+    (H_divsteps_done : ((Inverter.new sat mw aw).inv sat vw).gZero = true)
+    (H_divsteps_done_vt : ((Inverter.new sat mw aw).invVartime sat vw).gZero = true) :
+    ((Inverter.new sat mw aw).inv sat vw).isSome = ((Inverter.new sat mw aw).invVartime sat vw).isSome ∧
+    (((Inverter.new sat mw aw).inv sat vw).isSome = true →
+      CB.val ((Inverter.new sat mw aw).inv sat vw).value = CB.val ((Inverter.new sat mw aw).invVartime sat vw).value) := by
+  obtain ⟨a1, _, c1⟩ := safegcd_inv_partial sat hsat mw aw vw hmw haw hvw lm la lv hodd hadj H_divsteps_done
+  obtain ⟨a2, _, c2⟩ := safegcd_inv_vartime_partial sat hsat mw aw vw hmw haw hvw lm la lv hodd hadj H_divsteps_done_vt
+  have hiff : ((Inverter.new sat mw aw).inv sat vw).isSome = true ↔
+      ((Inverter.new sat mw aw).invVartime sat vw).isSome = true := a1.trans a2.symm
+  refine ⟨Bool.eq_iff_iff.mpr hiff, fun h => ?_⟩
+  obtain ⟨l1, m1⟩ := c1 h
+  obtain ⟨l2, m2⟩ := c2 (hiff.mp h)
+  have hcop : Nat.Coprime (CB.val mw) (CB.val vw) := by
+    have := a1.mp h; rw [Nat.gcd_comm] at this; exact this
+  have := Nat.ModEq.cancel_right_of_coprime hcop (m1.trans m2.symm)
+  unfold Nat.ModEq at this
+  rwa [Nat.mod_eq_of_lt l1, Nat.mod_eq_of_lt l2] at this
+
+/-- gcd: both forms return `Nat.gcd` -/
+theorem safegcd_gcd_ct_vartime_agree_partial (sat : Nat) (hsat : 1 ≤ sat)
+    (fw gw : List Nat) (hfw : CB.WF fw) (hgw : CB.WF gw) (lf : fw.length = sat) (lg : gw.length = sat)
+    (hodd : CB.val fw % 2 = 1)
+    (H_divsteps_done : (gcdFixed false sat fw gw).gZero = true)
+    (H_divsteps_done_vt : (gcdFixed true sat fw gw).gZero = true) :
+    CB.val (gcdFixed false sat fw gw).value = CB.val (gcdFixed true sat fw gw).value := by
+  rw [(safegcd_gcd_partial false sat hsat fw gw hfw hgw lf lg hodd H_divsteps_done).2,
+      (safegcd_gcd_partial true sat hsat fw gw hfw hgw lf lg hodd H_divsteps_done_vt).2]
+
+/-! ## T10.5 — Montgomery-form inversion: adjuster `R² mod M`, operand `a·R mod M`
+
+`MontyForm::inv` hands the Montgomery representation `v = a·R mod M` to the inverter built with adjuster
+`R² mod M` (`monty_form/inv.rs:20-33, 84-87`); the result `x` is again a Montgomery representation.  Retrieving
+(multiplying by `R⁻¹`, exactness: C08) gives the inverse of `a`: "the retrieved values multiply to 1". -/
+
+theorem monty_inv_partial (sat : Nat) (hsat : 1 ≤ sat)
+    (mw aw vw : List Nat) (hmw : CB.WF mw) (haw : CB.WF aw) (hvw : CB.WF vw)
+    (lm : mw.length = sat) (la : aw.length = sat) (lv : vw.length = sat)
+    (hodd : CB.val mw % 2 = 1)
+    (a R Rinv : Nat) (hR : R * Rinv ≡ 1 [MOD CB.val mw])
+    (hv : CB.val vw = a * R % CB.val mw) (hadjv : CB.val aw = R * R % CB.val mw)
+    (H_divsteps_done : ((Inverter.new sat mw aw).inv sat vw).gZero = true) :
+    (((Inverter.new sat mw aw).inv sat vw).isSome = true ↔ Nat.gcd a (CB.val mw) = 1) ∧
+    (((Inverter.new sat mw aw).inv sat vw).isSome = true →
+      (CB.val ((Inverter.new sat mw aw).inv sat vw).value * Rinv % CB.val mw) * (a % CB.val mw)
+        ≡ 1 [MOD CB.val mw]) := by
+  have hMpos : 0 < CB.val mw := by omega
+  have hadj : CB.val aw < CB.val mw := by rw [hadjv]; exact Nat.mod_lt _ hMpos
+  obtain ⟨a1, _, c1⟩ := safegcd_inv_partial sat hsat mw aw vw hmw haw hvw lm la lv hodd hadj H_divsteps_done
+  have hRcop : Nat.Coprime R (CB.val mw) := Nat.coprime_of_mul_modEq_one Rinv hR
+  have hgcd : Nat.gcd (CB.val vw) (CB.val mw) = Nat.gcd a (CB.val mw) := by
+    rw [hv, (Nat.mod_modEq (a * R) (CB.val mw)).gcd_eq]
+    exact Nat.Coprime.gcd_mul_right_cancel a hRcop
+  rw [hgcd] at a1
+  refine ⟨a1, fun h => ?_⟩
+  obtain ⟨_, m1⟩ := c1 h
+  generalize CB.val ((Inverter.new sat mw aw).inv sat vw).value = X at *
+  generalize CB.val mw = M at *
+  have h1 : X * (a * R) ≡ R * R [MOD M] := by
+    have e1 : X * CB.val vw ≡ X * (a * R) [MOD M] := by
+      rw [hv]; exact Nat.ModEq.mul_left _ (Nat.mod_modEq _ _)
+    have e2 : CB.val aw ≡ R * R [MOD M] := by rw [hadjv]; exact Nat.mod_modEq _ _
+    exact e1.symm.trans (m1.trans e2)
+  have h2 : (X * Rinv % M) * (a % M) ≡ X * Rinv * a [MOD M] :=
+    Nat.ModEq.mul (Nat.mod_modEq _ _) (Nat.mod_modEq _ _)
+  refine h2.trans ?_
+  calc X * Rinv * a = X * Rinv * a * 1 := by ring
+    _ ≡ X * Rinv * a * (R * Rinv) [MOD M] := Nat.ModEq.mul_left _ hR.symm
+    _ = X * (a * R) * (Rinv * Rinv) := by ring
+    _ ≡ R * R * (Rinv * Rinv) [MOD M] := Nat.ModEq.mul_right _ h1
+    _ = (R * Rinv) * (R * Rinv) := by ring
+    _ ≡ 1 * 1 [MOD M] := Nat.ModEq.mul hR hR
+
+/-- non-vacuity: 3⁻¹ mod 7 through the whole constant-time inverter (one word, adjuster ONE): the
+    hypothesis `H_divsteps_done` holds and the result is 5 -/
+example : ((Inverter.new 1 [7] [1]).inv 1 [3]).gZero = true ∧
+    ((Inverter.new 1 [7] [1]).inv 1 [3]).isSome = true ∧
+    ((Inverter.new 1 [7] [1]).inv 1 [3]).value = [5] := by decide +kernel
+
+/-- non-vacuity: gcd(21, 14) = 7 through `SafeGcdInverter::gcd` -/
+example : (gcdFixed false 1 [21] [14]).gZero = true ∧ (gcdFixed false 1 [21] [14]).value = [7] := by
+  decide +kernel
 
 end CB.P10
